@@ -25,6 +25,8 @@ pub enum Op {
     ArbiterDisconnect,
     /// the arbiter answers the oldest (true) or newest (false) unanswered notice it holds
     Resolve(bool),
+    /// the arbiter answers the newest notice it holds wherever that conflict stands in its key's queue (out of order)
+    ResolveNewest,
     Get(usize),
 }
 
@@ -216,22 +218,28 @@ fn run_sequence(ops: &[Op], v: &Verdicts, st: &Mutex<Stats>) {
                     shape.push("arbiter-disconnect");
                 }
             }
-            Op::Resolve(oldest) => {
+            Op::Resolve(_) | Op::ResolveNewest => {
                 let Some(a) = arbiter.as_mut() else { continue };
-                // queue order: the arbiter answers the notice of the conflict at the head of a key's queue
-                let pos = if *oldest { inbox.iter().position(|n| model[&n.key].queue.front() == Some(&n.proposed)) } else { inbox.iter().rposition(|n| model[&n.key].queue.front() == Some(&n.proposed)) };
+                // queue order: the arbiter answers the notice of the conflict at the head of a key's queue;
+                // out of order: the newest notice of a conflict that is still queued, wherever it stands
+                let pos = match op {
+                    Op::Resolve(true) => inbox.iter().position(|n| model[&n.key].queue.front() == Some(&n.proposed)),
+                    Op::Resolve(false) => inbox.iter().rposition(|n| model[&n.key].queue.front() == Some(&n.proposed)),
+                    _ => inbox.iter().rposition(|n| model[&n.key].queue.contains(&n.proposed)),
+                };
                 let Some(pos) = pos else { continue };
                 let n = inbox.remove(pos).unwrap();
+                let out_of_order = model[&n.key].queue.front() != Some(&n.proposed);
                 let line = format!("resolve {} {} {} {} {}", n.opid, n.db, n.key, n.version, n.proposed);
                 let r = a.call(&dbs, &line);
                 node.pump();
                 resolves += 1;
                 let m = model.get_mut(&n.key).unwrap();
-                m.queue.pop_front();
+                m.queue.retain(|x| x != &n.proposed);
                 m.value = Some(n.proposed.clone());
                 let (val, ver) = cur(&mut writer, &n.key);
                 trace.push(json!({"line": line, "reply": r.resp, "after": [val, ver], "still_queued": m.queue.len()}));
-                shape.push(if m.queue.is_empty() { "resolve-last" } else { "resolve-with-more-queued" });
+                shape.push(if out_of_order { "resolve-out-of-order" } else if m.queue.is_empty() { "resolve-last" } else { "resolve-with-more-queued" });
                 // further notices may have been pushed to the arbiter by the resolve itself
                 for l in r.pushed.iter().filter_map(|l| parse_notice(l)) {
                     inbox.push_back(l);
@@ -304,7 +312,7 @@ fn random_op(r: &mut Rng) -> Op {
         3..=6 => Op::SetSafe(k, *r.pick(&[-1, -1, 0, 1])),
         7..=8 => Op::ArbiterConnect,
         9 => Op::ArbiterDisconnect,
-        10..=12 => Op::Resolve(r.chance(3, 4)),
+        10..=12 => if r.chance(1, 3) { Op::ResolveNewest } else { Op::Resolve(r.chance(3, 4)) },
         _ => Op::Get(k),
     }
 }
@@ -488,8 +496,8 @@ pub fn run(tier: &str) -> i32 {
     let st = Mutex::new(Stats { sequences: 0, steps: 0, shapes: BTreeSet::new(), conflicts: 0, resolves: 0, samples: vec![], cluster_runs: 0, inconclusive: 0 });
     let mut rng = Rng::new(seed());
     let mut cases: Vec<Vec<Op>> = vec![];
-    // systematic: all sequences of length <= 4 (quick) / 5 (thorough) over a 7-step alphabet, after two base writes
-    let alpha = vec![Op::Set(0), Op::SetSafe(0, -1), Op::SetSafe(0, 0), Op::ArbiterConnect, Op::ArbiterDisconnect, Op::Resolve(true), Op::Get(0)];
+    // systematic: all sequences of length <= 4 (quick) / 5 (thorough) over an 8-step alphabet, after two base writes
+    let alpha = vec![Op::Set(0), Op::SetSafe(0, -1), Op::SetSafe(0, 0), Op::ArbiterConnect, Op::ArbiterDisconnect, Op::Resolve(true), Op::ResolveNewest, Op::Get(0)];
     let depth = if thorough { 5 } else { 4 };
     let mut idx = vec![0usize; depth];
     'e: loop {
@@ -560,7 +568,7 @@ pub fn run(tier: &str) -> i32 {
     ev.set("pending_conflict_across_snapshot_and_restart_cases", json!(restart_cases));
     ev.evaluations = s.sequences + s.cluster_runs;
     ev.distinct_nontrivial = s.shapes.len() as u64;
-    ev.rule = format!("single node: {} systematic sequences (every sequence of {} steps over {{set, stale set-safe, current set-safe, arbiter connect, arbiter disconnect, resolve, get}} after two base writes, followed by connect + resolves + a final write) + {} random sequences of 4-14 steps over 2 keys; a scripted arbiter answers the notices it received (echoing op id and version); a conflict-queue model is checked after every step. Cluster: {} Engine N runs (2-3 nodes, arbiter on the primary or on a secondary, 1-3 conflicting writes, resolves oldest first). distinct_nontrivial = distinct compressed sequences of step outcomes (write-ok / conflict with no, connected or absent arbiter / connect with or without pending / resolve last or with more queued)", systematic, depth, n_random, s.cluster_runs);
+    ev.rule = format!("single node: {} systematic sequences (every sequence of {} steps over {{set, stale set-safe, current set-safe, arbiter connect, arbiter disconnect, resolve the oldest, resolve the newest notice out of order, get}} after two base writes, followed by connect + resolves + a final write) + {} random sequences of 4-14 steps over 2 keys; a scripted arbiter answers the notices it received (echoing op id and version); a conflict-queue model is checked after every step. Cluster: {} Engine N runs (2-3 nodes, arbiter on the primary or on a secondary, 1-3 conflicting writes, resolves oldest first). distinct_nontrivial = distinct compressed sequences of step outcomes (write-ok / conflict with no, connected or absent arbiter / connect with or without pending / resolve last or with more queued)", systematic, depth, n_random, s.cluster_runs);
     ev.samples = s.samples.clone();
     ev.set("steps", json!(s.steps));
     ev.set("conflicts_recorded", json!(s.conflicts));
@@ -571,7 +579,7 @@ pub fn run(tier: &str) -> i32 {
     ev.violations = v.violation_count();
     ev.assumptions = vec![
         "values are single words (the notice format is space separated)".into(),
-        "the scripted arbiter resolves the conflict at the head of a key's queue (oldest first, or the newest notice of a head conflict)".into(),
+        "the scripted arbiter resolves the conflict at the head of a key's queue (oldest first, or the newest notice of a head conflict) or, out of order, the newest notice of any queued conflict; the key then holds the value of the resolution made last in time and stays in conflict resolution until every queued conflict is answered".into(),
         "'no arbiter has registered' means never registered on this database; after an arbiter left, conflicts are recorded for the next one, as the statement allows".into(),
     ];
     ev.write();
